@@ -86,6 +86,7 @@ def run(ctx):
     r3 = ctx.rule("C01.R3", "DEP: builder.collect marks every bin True iff the sample declares the modifier; undeclared histosys/normsys variations are the nominal / 1.0", "DEP", floor=14)
     r4 = ctx.rule("C01.R4", "FILL: a sample that is absent from a channel gets a nominal of zeros with the channel's bin count (nominal builder and every modifier builder)", "FILL", floor=8)
     r5 = ctx.rule("C01.R5", "ORDER: mask modifier axis = keys built from the same `modifiers` list as the parameter selection; sample axis = pdfconfig.samples; nominal rates over config.samples; bin-index fields over pdfconfig.channels x channel_nbins", "ORDER", floor=12)
+    r6 = ctx.rule("C01.R6", "SHAPE: in every applier einsum the output has the four axis roles (modifier, sample, batch, bin) of the mask operand; the operand that carries parameter values is never indexed by the sample axis (a modifier's effect on a sample is decided by the mask alone) and its modifier letter, if present, is the output's first; builder data keep their up/down roles from the specification to the interpolator (lo, nominal, hi)", "SHAPE", floor=10)
     r7 = ctx.rule("C01.R7", "DEP: parameter requirements are registered under the modifier name and appliers select parameters by those names", "DEP", floor=13)
 
     for key, (b, c) in sorted(reg.items()):
@@ -119,6 +120,36 @@ def run(ctx):
                     ctx.holds(r1, f"{site}.apply [not declared]", f"neutral element {neutral}")
                 else:
                     ctx.violated(r1, c.methods["apply"], "apply where the modifier is not declared", f"a sample that does not declare this {op} modifier is not left untouched: it receives {v} instead of the neutral element", expected=str(neutral), found=str(v))
+        # ---- R6 einsum axis roles
+        from ..dep import Deps as _Deps
+        ap = c.methods["apply"]
+        dap = _Deps(ap.node)
+        for es in [cc for cc in A.calls_in(ap.node) if A.call_attr(cc) == "einsum"]:
+            spec_ = A.const_value(es.args[0]) if es.args else None
+            if not isinstance(spec_, str) or "->" not in spec_:
+                ctx.unrecognised(r6, ap, es, "einsum without a literal subscript string")
+                continue
+            ins, out = spec_.replace(" ", "").split("->")
+            subs = ins.split(",")
+            ops = es.args[1:]
+            okr, why = True, ""
+            if len(out) != 4 or len(set(out)) != 4:
+                okr, why = False, f"output '{out}' does not have four distinct axes (modifier, sample, batch, bin)"
+            for sub, op in zip(subs, ops):
+                is_par = dap.depends_on(op, "pars")
+                if is_par and okr:
+                    if out[1] in sub:
+                        okr, why = False, f"the parameter operand '{sub}' is indexed by the sample axis '{out[1]}'"
+                    elif out[0] in sub and sub[0] != out[0]:
+                        okr, why = False, f"the modifier axis is not the leading axis of the parameter operand '{sub}'"
+                    elif out[3] in sub and out[0] not in sub:
+                        okr, why = False, f"the parameter operand '{sub}' is indexed by bin but not by modifier"
+                elif not is_par and okr and len(sub) == 4 and sub != out:
+                    okr, why = False, f"the mask operand '{sub}' and the output '{out}' order their axes differently"
+            if okr:
+                ctx.holds(r6, f"{site}.apply: einsum {spec_!r}", "axis roles consistent")
+            else:
+                ctx.violated(r6, ap, es, f"einsum {spec_!r}: {why}: parameter values are spread over the wrong axis of the (modifier, sample, batch, bin) tensor", expected="'msab,m->msab' | 'msab,ma->msab' | 'mab,s->msab' (letters free)", found=spec_, node=es)
         # ---- R3 / R4 builder
         col = b.methods.get("collect")
         app = b.methods.get("append")
@@ -136,6 +167,14 @@ def run(ctx):
                     ctx.holds(r3, f"{b.relpath}::{b.name}.collect [{'declared' if present else 'not declared'}]", f"mask = {list(mk)}")
                 else:
                     ctx.violated(r3, col, f"mask [{'declared' if present else 'not declared'}]", "the mask is not a presence mask with one entry per bin: a modifier declared on one sample acts on others (or not on its own)", expected=str([present] * 2), found=str(mk))
+                if present and key in ("histosys", "normsys"):
+                    lo_k, hi_k = ("lo_data", "hi_data") if key == "histosys" else ("lo", "hi")
+                    lo_v, hi_v = out[lo_k], out[hi_k]
+                    flat = lambda z: "".join(str(to_poly(q)) for q in (z if isinstance(z, list) else [z]))
+                    if "lo" in flat(lo_v) and "hi" in flat(hi_v) and "hi" not in flat(lo_v) and "lo" not in flat(hi_v):
+                        ctx.holds(r6, f"{b.relpath}::{b.name}.collect", "down variation <- spec lo, up variation <- spec hi")
+                    else:
+                        ctx.violated(r6, col, f"{key} lo/hi routing", "the builder stores the specification's down variation as up (or vice versa)", expected="lo <- lo, hi <- hi", found=f"lo={flat(lo_v)} hi={flat(hi_v)}")
                 if not present:
                     if key == "histosys":
                         ok = [str(to_poly(x)) for x in out["lo_data"]] == ["n0", "n1"] and [str(to_poly(x)) for x in out["hi_data"]] == ["n0", "n1"]
@@ -152,7 +191,7 @@ def run(ctx):
         _absent_nominal(ctx, r4, b, app)
         # ---- R5 / R7 structure of combined.__init__
         init = c.methods["__init__"]
-        _layout(ctx, r5, r7, key, b, c, init)
+        _layout(ctx, r5, r6, r7, key, b, c, init)
 
     # nominal builder
     nb = repo.cls(PDF, "_nominal_builder")
@@ -278,7 +317,7 @@ def _absent_nominal(ctx, rid, b, app):
         ctx.violated(rid, app, absent, "the nominal of an absent sample is not a constant list of the channel's bin count", found=A.short(absent, 60), node=absent)
 
 
-def _layout(ctx, r5, r7, key, b, c, init):
+def _layout(ctx, r5, r6, r7, key, b, c, init):
     """Interpret the applier's constructor on a symbolic 2-modifier x 2-sample configuration and read the layout of every
     tensor it stores: row i must belong to the i-th modifier the parameters are selected for, column j to pdfconfig.samples[j]."""
     site = f"{c.relpath}::{c.name}.__init__"
@@ -319,6 +358,15 @@ def _layout(ctx, r5, r7, key, b, c, init):
                     cell = _tags(v[i][j])
                     if not cell or any(t.split("@")[1:] != [m, s_] for t in cell):
                         ok = False
+        if ok and isinstance(v[0][0], list) and len(v[0][0]) == 3 and all(isinstance(x, Poly) for x in v[0][0]):
+            kinds3 = [sorted(_tags(x))[0].split("@")[0] for x in v[0][0]]
+            if not any(k3.startswith(("lo", "hi")) for k3 in kinds3):
+                pass  # not an interpolator input (e.g. shapesys bookkeeping)
+            elif not (kinds3[0].startswith("lo") and kinds3[1].startswith("nom") and kinds3[2].startswith("hi")):
+                ok = False
+                ctx.violated(r6, init, f"self.{nm} slot order", f"the (down, nominal, up) slots handed to the interpolator are filled with {kinds3}: the up and down variations are exchanged or misplaced", expected="[lo, nominal, hi]", found=str(kinds3), node=init.node)
+            else:
+                ctx.holds(r6, f"{site}: self.{nm} slots", "(lo, nominal, hi)")
         if ok:
             ctx.holds(r5, f"{site}: self.{nm}", "tensor[i][j] holds the data of (modifier i of `modifiers`, sample j of pdfconfig.samples)")
         else:
